@@ -199,7 +199,7 @@ void optionals()
     }
   }
   // containers of optionals: all shapes of length <= 3
-  for (int len = 0; len <= 3; ++len)
+  for (int len = 0; len <= (thorough() ? 4 : 3); ++len)
     for (int mask = 0; mask < (1 << len); ++mask)
     {
       std::string sh = "[";
@@ -318,7 +318,7 @@ void eithers()
       });
     });
   // sequence: only rvalue sources can be instantiated (see notes)
-  for (int len = 0; len <= 3; ++len)
+  for (int len = 0; len <= (thorough() ? 4 : 3); ++len)
     for (int mask = 0; mask < (1 << len); ++mask)
     {
       std::string sh = "[";
